@@ -12,6 +12,11 @@ import glob, importlib.util, os
 
 TARGETS, PROPS, META = {}, {}, {}
 _here = os.path.dirname(os.path.abspath(__file__))
+# a property is registered when it is listed in harness/enabled.txt, or named in VERIF_EXTRA_PROPS (work in progress)
+_enabled = {l.strip() for l in open(os.path.join(_here, "enabled.txt")) if l.strip() and not l.startswith("#")}
+_enabled |= {x for x in os.environ.get("VERIF_EXTRA_PROPS", "").split(",") if x}
+import re as _re, sys as _sys
+_enabled |= {a for a in _sys.argv[1:] if _re.fullmatch(r"C[0-9][0-9]", a)}   # ./check Cxx works for unfinished checks too
 for _p in sorted(glob.glob(os.path.join(_here, "C[0-9][0-9]", "reg.py"))):
     _pid = os.path.basename(os.path.dirname(_p))
     _spec = importlib.util.spec_from_file_location("reg_" + _pid, _p)
@@ -26,6 +31,6 @@ for _p in sorted(glob.glob(os.path.join(_here, "C[0-9][0-9]", "reg.py"))):
     for _k, _v in _m.TARGETS.items():
         assert _k not in TARGETS, "duplicate target " + _k
         TARGETS[_k] = _v
-    if getattr(_m, "ENABLED", True):
+    if _pid in _enabled:
         PROPS[_pid] = _m.PROP
         META[_pid] = _m.META
